@@ -84,12 +84,9 @@ def run(ctx, rep):
     if cl is None:
         rep.lost("sort-key", "create_gnu_hash_layout")
     else:
-        sorts = [n for d, n in hirq.calls(cl["body"], lambda d: d and d.split("::")[-1].startswith(("par_sort", "sort")))]
-        ok = False
-        for n in sorts:
-            sk = hirq.skeleton(n, lambda x: None).replace("local:", "")
-            ok = ok or ("(gnu_hash_layout.bucket_for_hash(d.format_specific.hash), d.name)" in sk)
-        rep.ob("sort-key", "key", ok, "sort key = (bucket_for_hash(hash), name): symbols of one bucket are contiguous (glibc walks the chain linearly) and the order is total", cl["file"], cl["line"])
+        import sortkey
+        ok, why = sortkey.gnu_hash_sort_is_total(F, P)
+        rep.ob("sort-key", "key", bool(ok), f"sort key = (bucket_for_hash(hash), name): symbols of one bucket are contiguous (glibc walks the chain linearly) and the order is total — {why}", cl["file"], cl["line"])
         lit = {k: hirq.skeleton(v, lambda n: None) for k, v in hirq.let_map(cl["body"]).items()}
         gl = " ".join(lit.values())
         rep.ob("sort-key", "bloom-count-literal", _struct_field_lit(cl, "bloom_count") == 1 and _allocate_bloom_words(F) == 1,
